@@ -1,6 +1,6 @@
 (** * Driver: one recorded invocation in, one JSON line out (extracted to OCaml) *)
 From Coq Require Import List String Ascii Bool Arith.
-From Entrait Require Import Tok Sexp Syn Decode Opts Split FnParams Convert Codegen Expand Show Proj Proj2 Proj3 Proj4.
+From Entrait Require Import Tok Sexp Syn Decode Opts Split FnParams Convert Codegen Expand Show Proj Proj2 Proj3 Proj4 Known.
 Import ListNotations.
 Local Open Scope string_scope.
 Local Open Scope list_scope.
@@ -123,9 +123,19 @@ Definition views_json (cx : ctx) (c : case) (model : outcome) (model_items : opt
     | RPanic, OTokens mts => let m := view_C02 cx (c_input_toks c) mts in view_pair (mkView (v_app m) false false []) m
     | RPanic, _ => view_pair na na
     end in
+  let methods := match real_items with
+                 | Some ri => match parts (c_input c) ri with
+                              | Some (GFn _ tr _ | GMod _ _ _ _ tr _ _ _ | GTrait tr _ _) =>
+                                  map (fun '(_, s) => jstr (s_name s)) (trait_sigs tr)
+                              | Some (GImpl _ im) => map (fun '(_, s, _) => jstr (s_name s)) (impl_fns im)
+                              | None => []
+                              end
+                 | None => []
+                 end in
   let '(r15, m15) := c15_views cx (c_real c) model parsable in
   map (fun '(id, f) => (id, jstr (on_items f))) item_views ++
-  [("C02", jstr c02); ("C15", jstr (view_pair r15 m15)); ("parsable", jbool parsable)].
+  [("C02", jstr c02); ("C15", jstr (view_pair r15 m15)); ("parsable", jbool parsable); ("methods", jlist methods);
+   ("known", jobj [("C02", jbool (known_C02 (c_input c))); ("C03", jbool (known_C03 cx)); ("C09", jbool (known_C09 (c_input c)))])].
 
 Definition run_case (c : case) : string :=
   let v := match variant_of_string (c_variant c) with Some v => v | None => VEntrait end in
